@@ -131,6 +131,7 @@ type Sim struct {
 	cutActors bool
 
 	endVirtual time.Duration
+	maxTick    time.Duration // when > 0, chaos ticks are capped (keeps client timeouts out of a configuration)
 	zsink      *Webhook
 	hiddenSeq  int
 }
@@ -279,7 +280,11 @@ func (s *Sim) Step() (progress bool) {
 			r -= s.weights[k]
 		}
 		if kind == akTick {
-			chosen = s.tickAction(tickChoices[s.ch.choose(len(tickChoices))])
+			d := tickChoices[s.ch.choose(len(tickChoices))]
+			if s.maxTick > 0 && d > s.maxTick {
+				d = s.maxTick
+			}
+			chosen = s.tickAction(d)
 		} else {
 			var sub []action
 			tw := 0
